@@ -95,6 +95,11 @@ fn judge_fault(sc: &Scenario, ex: &mut Exec, kind: K, idx: u64, errno: i32, fire
                 if t.is_none() || (t != sc.pre_writer && t != sc.pre_reader && t != new_tag) {
                     return mk("wrong-data", format!("{} returned {} after {:?} #{} failed with {}", sc.op.name(), describe_bytes(data), kind, idx, errno_name(errno)));
                 }
+                // the write side is consulted first: a copy that is there but could
+                // not be looked up (EIO, EACCES, EMFILE...) is not an absent copy
+                if !absent_errno && sc.pre_writer.is_some() && t != sc.pre_writer && !matches!(sc.op, Op::GetOrUpdate { action: Action::Replace, .. }) {
+                    return mk("masked-lookup", format!("{} returned {} although the write side holds value #{:?} and {:?} #{} failed with {}", sc.op.name(), describe_bytes(data), sc.pre_writer, kind, idx, errno_name(errno)));
+                }
                 // a configured consistency checker is shown the populated
                 // copy before a cached value is returned: a failure to get
                 // the scratch file for that is not a reason to skip it
